@@ -273,6 +273,16 @@ func c19(r *Run) {
 		r.borrow([]string{"C05.R8:stop-flushing-first"}, "C05.R8", "C19.R2", func() { c05(r) })
 	}
 
+	// slot fields are touched only while the slot token is held (C10.R2, C11.R1); the ShardQueue ring slot is written
+	// before the counter that publishes it and shards are touched under their lock (C17)
+	if w.Cfg.Name == "linux" {
+		r.borrow([]string{"C10.R2:field-under-token", "C10.R1:helper-releases-last"}, "C10.R", "C19.R2.slot.", func() { c10(r) })
+		r.borrow([]string{"C11.R1:queue-before-release"}, "C11.R1", "C19.R2.slot", func() { c11(r) })
+		if w.Mux != nil {
+			r.borrow([]string{"C17.R1:ring-before-counter", "C17.R3:getters-under-shard-lock", "C17.R3:ring-write-under-listLock"}, "C17.R", "C19.R2.mux.", func() { c17(r) })
+		}
+	}
+
 	// ---- R3 race-build substitution --------------------------------------------------------------------
 	if w.Cfg.Tags == "race" {
 		c19Race(r)
